@@ -37,7 +37,8 @@ def replayed_delivery(r) -> bool:
 
 class Spec:
     def __init__(self, prop, props=None, gen=None, deciding=None, quick=None, thorough=None, level="exploration",
-                 rule="", minima=None, compare_final=False, extra_judge=None, small_gen=None, explicit=None):
+                 rule="", minima=None, compare_final=False, extra_judge=None, small_gen=None, explicit=None, det=False,
+                 direct=None):
         self.prop = prop
         self.props = props or [prop]
         self.gen = gen or {}
@@ -51,9 +52,17 @@ class Spec:
         self.compare_final = compare_final
         self.extra_judge = extra_judge
         self.explicit = explicit  # callable(tier, seed) -> extra hand-written cases
+        self.det = det
+        self.direct = direct  # callable(case) -> result dict, for cases with "direct" key
 
     # -------------------------------------------------------------- cases
     def cases(self, tier, seed):
+        for c in self._cases(tier, seed):
+            if self.det:
+                c["det"] = True
+            yield c
+
+    def _cases(self, tier, seed):
         n = self.quick if tier == "quick" else self.thorough
         base = seed * 100003
         i = 0
@@ -99,14 +108,25 @@ class Spec:
                 for e in r["trace"]
             )
             if sig != ref_sig and not interrupted_amo:
-                extra.append(V(self.prop, "%s/final-outcome-differs/%s-vs-%s" % (self.prop, ref_sig[0], sig[0]),
+                from dw.program import walk
+
+                raising_wfc = any(n["k"] == "wfc" and any(c.get("do") == "fail" for c in n.get("checks") or [])
+                                  for _p, n in walk(r["scenario"]["prog"]["body"]))
+                key = "%s/final-outcome-differs/%s-vs-%s" % (self.prop, ref_sig[0], sig[0])
+                if raising_wfc:
+                    key = "%s/final-outcome-differs/program-has-raising-wait-for-condition-check" % self.prop
+                extra.append(V(self.prop, key,
                                "interrupted run ended %s, uninterrupted reference %s" % (str(sig)[:150], str(ref_sig)[:150])))
-        cls = None
-        if self.deciding(r):
-            cls = "%s|%s|%s" % (h8(W.shape_of(r["scenario"]["prog"])), label, W.crash_label(r, None))
+        def cls(r):
+            if self.deciding(r):
+                return "%s|%s|%s" % (h8(W.shape_of(r["scenario"]["prog"])), label, W.crash_label(r, None))
+            return None
+
         acc.add(r, self.props, cls=cls, sc=sc, extra_viol=extra)
 
     def run_case(self, case):
+        if "direct" in case:
+            return self.direct(case)
         acc = W.Acc(case)
         if "exact_scenario" in case:
             sc = copy.deepcopy(case["exact_scenario"])
